@@ -2,18 +2,11 @@
 
 use p2panda_encryption::Rng as EncRng;
 use serde::Serialize;
-use serde::de::DeserializeOwned;
 use vh_common::Rng;
 
 /// The crate's own ChaCha `Rng`, seeded deterministically from the harness PRNG.
 pub fn enc_rng(rng: &mut Rng) -> EncRng {
     EncRng::from_seed(rng.array32())
-}
-
-/// Build any serde type of the crate from a `serde_json` value (used for types whose
-/// constructors are crate-private, e.g. `Secret<N>`).
-pub fn from_json<T: DeserializeOwned>(v: serde_json::Value) -> T {
-    serde_json::from_value(v).expect("construct value through serde")
 }
 
 pub fn to_json<T: Serialize>(t: &T) -> serde_json::Value {
